@@ -136,6 +136,8 @@ protected:
         auto const & term = termIt->second;
         auto & names_ = _namesForTerm(term);
         names_.erase(std::find(names_.begin(), names_.end(), name));
+        // A term without names must not be reported by `contains(term)` (and `nameForTerm` must not read an empty vector)
+        if (names_.empty()) { termToNames.erase(term); }
         nameToTerm.erase(termIt);
         return true;
     }
